@@ -561,9 +561,54 @@ def generate():
         out.append("")
     run_unit('GenIpc', unit_ipc)
     def unit_router(out):
-        # Router::run (C07/C17): which statement ends the loop on Shutdown, and how a closed wake-up is handled
+        # Router (C07/C17): which variant of the model the source is — each flag is a statement-order / arm-shape fact
         _, _, run = find_fn(router, 'run')
         out.append(f"def routerRunArms : Nat := {len(re.findall(r'IpcSelectionResult::', run))}")
+        flat = re.sub(r'\s+', '', run)
+        # the wake-up arm: clear the flag, then serve the queue until it is empty
+        i_clear = flat.find('self.wakeup_pending.store(false,Ordering::SeqCst);')
+        i_loop = flat.find('whileletOk(msg)=self.msg_receiver.try_recv(){')
+        out.append(f"def vOneMsgPerWake : Bool := {'false' if 0 <= i_clear < i_loop else 'true'}  -- false: flag cleared, then `while let Ok(msg) = try_recv()`")
+        # the Shutdown arm: handlers cleared, then acknowledged, then `return`
+        m = re.search(r'RouterMsg::Shutdown\(sender\)=>\{(.*?)\},', flat)
+        arm = m.group(1) if m else ''
+        i_clr, i_ack, i_ret = arm.find('self.handlers.clear();'), arm.find('sender.send(())'), arm.find('return;')
+        out.append(f"def vAckBeforeDrop : Bool := {'false' if 0 <= i_clr < i_ack else 'true'}  -- false: `handlers.clear()` before the acknowledgement")
+        out.append(f"def vBreakInnerOnly : Bool := {'false' if 0 <= i_ack < i_ret and 'break' not in arm else 'true'}  -- false: the arm ends the thread with `return`")
+        # a closed wake-up channel (proxy dropped) has its own arm, ahead of the general one, and stops the router
+        m1 = re.search(r'IpcSelectionResult::ChannelClosed\(id\)ifid==self\.msg_wakeup_id=>\{self\.handlers\.clear\(\);return;\},', flat)
+        m2 = re.search(r'IpcSelectionResult::ChannelClosed\(id\)=>\{', flat)
+        out.append(f"def vPanicOnWakeClosed : Bool := {'false' if m1 and m2 and m1.start() < m2.start() else 'true'}  -- false: dedicated arm clears and returns")
+        # RouterProxy::shutdown: the acknowledgement is awaited after the block that holds the lock has ended
+        _, _, sd = find_fn(router, 'shutdown')
+        fsd = re.sub(r'\s+', '', sd)
+        mb = re.match(r'letack_receiver=\{letmutcomm=self\.comm\.lock\(\)\.unwrap\(\);', fsd)
+        waits_unlocked = False
+        if mb:
+            # end of the `let ack_receiver = { … };` block
+            depth, i = 0, fsd.find('{')
+            j = i
+            while j < len(fsd):
+                if fsd[j] == '{':
+                    depth += 1
+                elif fsd[j] == '}':
+                    depth -= 1
+                    if depth == 0:
+                        break
+                j += 1
+            rest = fsd[j + 1:]
+            waits_unlocked = 'ack_receiver.recv()' in rest and 'ack_receiver.recv()' not in fsd[:j] and 'comm' not in rest
+        out.append(f"def vLockWhileWaiting : Bool := {'false' if waits_unlocked else 'true'}  -- false: `ack_receiver.recv()` after the locked block")
+        i_flag, i_send, i_wake = fsd.find('comm.shutdown=true;'), fsd.find('.send(RouterMsg::Shutdown(ack_sender))'), fsd.find('let_=comm.wake();')
+        out.append(f"def shape_shutdownOrder : Bool := {'true' if 0 <= i_flag < i_send < i_wake else 'false'}  -- flag, request, wake-up (its failure ignored)")
+        out.append(f"def shape_shutdownIdempotent : Bool := {'true' if 'Some(refack_receiver)=>ack_receiver.clone(),' in fsd else 'false'}")
+        _, _, ar = find_fn(router, 'add_route')
+        far = re.sub(r'\s+', '', ar)
+        i_lock, i_chk, i_snd, i_wk = far.find('self.comm.lock()'), far.find('ifcomm.shutdown{return;}'), far.find('.send(RouterMsg::AddRoute(receiver,callback))'), far.find('comm.wake()')
+        out.append(f"def shape_addRouteOrder : Bool := {'true' if 0 <= i_lock < i_chk < i_snd < i_wk else 'false'}  -- lock, late-offer check, request, wake-up")
+        _, _, wk = find_fn(router, 'wake')
+        fwk = re.sub(r'\s+', '', wk)
+        out.append(f"def shape_wakeCoalesced : Bool := {'true' if fwk.startswith('if!self.wakeup_pending.swap(true,Ordering::SeqCst){self.wakeup_sender.send(())?;}Ok(())') else 'false'}")
     run_unit('GenRouter', unit_router)
     return files, errors
 
